@@ -58,18 +58,50 @@ type runSpec struct {
 	VerdCol      bool      `json:"verd_column"`
 	NumHeader    int       `json:"num_header"`
 	Sep          string    `json:"separator"`
+	StartYear    int       `json:"start_year_on_batch_line,omitempty"`
+	BadDateLine  string    `json:"line_with_unparsable_date,omitempty"`
+	ExtraDay     string    `json:"extra_line,omitempty"`
 }
 
 type runCase struct {
-	Spec   runSpec
-	P      *proj.Project
-	S      *wxSeries
-	ByDate map[proj.Date]*wxRec
-	ByID   map[int]*wxRec
+	Spec      runSpec
+	P         *proj.Project
+	S         *wxSeries
+	ByDate    map[proj.Date]*wxRec
+	ByID      map[int]*wxRec
+	LastDoy   map[int]int // year → last day of the year the input holds for it
+	StartYear int         // configured StartYear (batch line); 0 = the year of the first simulated day
+}
+
+func (rc *runCase) startYear() int {
+	if rc.StartYear != 0 {
+		return rc.StartYear
+	}
+	return rc.P.Start().Y
+}
+
+// setStartYear puts StartYear on the batch line (it overrides config.yml, which proj.Write fills
+// with the year of the first harvest)
+func (rc *runCase) setStartYear(y int) {
+	rc.StartYear = y
+	rc.P.Args = append(rc.P.Args, fmt.Sprintf("StartYear=%d", y))
+	rc.Spec.StartYear = y
 }
 
 var validKinds = []string{"valid"}
-var errorKinds = []string{"missing-year-file", "empty-year-file", "ends-early", "short-last-year", "starts-late-same-year", "starts-late-next-year", "gap", "gap-1day", "gap-year-end"}
+var errorKinds = []string{"missing-year-file", "empty-year-file", "ends-early", "short-last-year", "starts-late-same-year", "starts-late-next-year", "gap", "gap-1day", "gap-year-end", "bad-date-line", "extra-day-366"}
+
+// kindApplies: year-file defects exist in layout 0 only; an unparsable date token in layouts 1, 2
+// only (the day column of a year file goes through ValAsInt: log.Fatal, the process ends)
+func kindApplies(kind string, layout int) bool {
+	switch kind {
+	case "missing-year-file", "empty-year-file", "extra-day-366":
+		return layout == 0
+	case "bad-date-line":
+		return layout != 0
+	}
+	return true
+}
 
 func posClass(d proj.Date) string {
 	switch {
@@ -160,6 +192,7 @@ func genRunCase(r *vh.Rng, name, kind string, layout int, fixed *[4]proj.Date) *
 		fe = end
 	}
 	drop := map[int]bool{} // day numbers Z
+	badZ, extraYear := 0, 0
 	missing, empty := map[int]bool{}, map[int]bool{}
 	switch kind {
 	case "missing-year-file":
@@ -209,6 +242,27 @@ func genRunCase(r *vh.Rng, name, kind string, layout int, fixed *[4]proj.Date) *
 			drop[a+i] = true
 		}
 		rc.Spec.Dropped = fmt.Sprintf("%v … %v", proj.FromZ(a), proj.FromZ(a+k-1))
+	case "bad-date-line":
+		badZ = r.Range(start.Z()+1, end.Z())
+		if d := proj.FromZ(badZ); d.M == 1 && d.D == 1 {
+			badZ++
+			if badZ > end.Z() {
+				badZ -= 2
+			}
+		}
+	case "extra-day-366":
+		for y := start.Y; y < end.Y; y++ {
+			if !isLeap(y) {
+				extraYear = y
+				if r.Chance(0.5) {
+					break
+				}
+			}
+		}
+		if extraYear == 0 { // no complete non-leap year inside the window
+			kind = "missing-year-file"
+			missing[r.Range(start.Y, end.Y)] = true
+		}
 	case "gap-year-end":
 		y := r.Range(start.Y, end.Y-1)
 		if (proj.Date{Y: y, M: 12, D: 31}).Z() <= start.Z() { // the run starts on that 31 December: nothing to drop there
@@ -296,15 +350,51 @@ func genRunCase(r *vh.Rng, name, kind string, layout int, fixed *[4]proj.Date) *
 				rec.Verd = wxNone
 			}
 		}
+		if w.Date.Z() == badZ {
+			rec.BadDate = true
+			rc.Spec.BadDateLine = w.Date.String()
+		}
 		s.Recs = append(s.Recs, rec)
+		if extraYear != 0 && w.Date.Y == extraYear && w.Date.M == 12 && w.Date.D == 31 {
+			x := rec
+			x.Extra, x.ExtraYear, x.ExtraDoy = true, extraYear, 366
+			x.Date = w.Date.AddDays(1)
+			s.Recs = append(s.Recs, x)
+			rc.Spec.ExtraDay = fmt.Sprintf("day 366 in the file of %d", extraYear)
+		}
+	}
+	// runs of two and three missing values in the optional columns (no valid adjacent day on one side)
+	if n := len(s.Recs); n > 12 {
+		for k := 0; k < 1+n/400; k++ {
+			i := r.Range(3, n-6)
+			if s.SunCol {
+				s.Recs[i].Sun, s.Recs[i+1].Sun = wxNone, wxNone
+			}
+			if s.VerdCol {
+				j := r.Range(3, n-6)
+				s.Recs[j].Verd, s.Recs[j+1].Verd = wxNone, wxNone
+				if r.Chance(0.5) {
+					s.Recs[j+2].Verd = wxNone
+				}
+			}
+		}
 	}
 	p.Weather = nil
 	s.renumber()
 	rc.S = s
-	rc.ByDate, rc.ByID = map[proj.Date]*wxRec{}, map[int]*wxRec{}
+	rc.ByDate, rc.ByID, rc.LastDoy = map[proj.Date]*wxRec{}, map[int]*wxRec{}, map[int]int{}
 	for i := range s.Recs {
-		rc.ByDate[s.Recs[i].Date] = &s.Recs[i]
-		rc.ByID[s.Recs[i].ID] = &s.Recs[i]
+		d := &s.Recs[i]
+		rc.ByID[d.ID] = d
+		if d.BadDate {
+			continue // the record is unusable: its day is not covered
+		}
+		if t := d.fileDoy(); t > rc.LastDoy[d.fileYear()] {
+			rc.LastDoy[d.fileYear()] = t
+		}
+		if !d.Extra {
+			rc.ByDate[d.Date] = d
+		}
 	}
 	rc.Spec.Preco, rc.Spec.SunCol, rc.Spec.VerdCol, rc.Spec.NumHeader, rc.Spec.Sep = s.Preco, s.SunCol, s.VerdCol, s.NumHeader, s.Sep
 	for y := range missing {
@@ -397,11 +487,12 @@ func (rc *runCase) modelLine() string {
 			doys []int
 		}
 		var files []yf
-		for _, d := range rc.S.Recs {
-			if len(files) == 0 || files[len(files)-1].y != d.Date.Y {
-				files = append(files, yf{y: d.Date.Y})
+		for i := range rc.S.Recs {
+			d := &rc.S.Recs[i]
+			if len(files) == 0 || files[len(files)-1].y != d.fileYear() {
+				files = append(files, yf{y: d.fileYear()})
 			}
-			files[len(files)-1].doys = append(files[len(files)-1].doys, d.Date.DOY())
+			files[len(files)-1].doys = append(files[len(files)-1].doys, d.fileDoy())
 		}
 		var entries []yf
 		seen := map[int]bool{}
@@ -421,7 +512,7 @@ func (rc *runCase) modelLine() string {
 				entries = append(entries, yf{y, nil})
 			}
 		}
-		fmt.Fprintf(&b, "dayloop.peryear %d %d %d %d %d", start.Y, start.Z(), start.DOY(), ndays, len(entries))
+		fmt.Fprintf(&b, "dayloop.peryear %d %d %d %d %d", rc.startYear(), start.Z(), start.DOY(), ndays, len(entries))
 		for _, f := range entries {
 			fmt.Fprintf(&b, " %d %d", f.y, len(f.doys))
 			for _, t := range f.doys {
@@ -430,10 +521,11 @@ func (rc *runCase) modelLine() string {
 		}
 		return b.String()
 	}
-	cap := end.Y - start.Y + 1
-	fmt.Fprintf(&b, "dayloop.multi %d %d %d %d %d %d", start.Y, cap, start.Z(), start.DOY(), ndays, len(rc.S.Recs))
-	for _, d := range rc.S.Recs {
-		fmt.Fprintf(&b, " %d %d", d.Date.Y, d.Date.DOY())
+	cap := end.Y - rc.startYear() + 1
+	fmt.Fprintf(&b, "dayloop.multi %d %d %d %d %d %d", rc.startYear(), cap, start.Z(), start.DOY(), ndays, len(rc.S.Recs))
+	for i := range rc.S.Recs {
+		y, t := rc.S.Recs[i].modelYD()
+		fmt.Fprintf(&b, " %d %d", y, t)
 	}
 	return b.String()
 }
@@ -479,6 +571,12 @@ func (rc *runCase) checkDays(o *runOut, viol func(sig, what string)) (aligned in
 		pc := posClass(date)
 		if 1900+d.J != date.Y || d.Tag+1 != date.DOY() {
 			viol(fmt.Sprintf("lockstep:fmt%d:%s", L, pc), fmt.Sprintf("on %v (ZEIT %d) the day counters are J=%d TAG=%d, i.e. day %d of %d", date, d.Zeit, d.J, d.Tag, d.Tag+1, 1900+d.J))
+		}
+		// JTAG is the length of the loaded year: the last day the input holds for the calendar year of
+		// ZEIT (365/366 for every complete year). A value left over from another year is wrong even
+		// before the year change shows it.
+		if want := rc.LastDoy[date.Y]; want != 0 && d.Jtag != want {
+			viol(fmt.Sprintf("jtag:fmt%d:%s", L, pc), fmt.Sprintf("on %v JTAG = %d, the input holds %d days of %d", date, d.Jtag, want, date.Y))
 		}
 		rec := rc.ByDate[date]
 		if rec == nil {
@@ -540,7 +638,12 @@ func (rc *runCase) checkDays(o *runOut, viol func(sig, what string)) (aligned in
 			}
 			pv, nx := rc.ByDate[date.AddDays(-1)], rc.ByDate[date.AddDays(1)]
 			if pv == nil || nx == nil || val(pv) == wxNone || val(nx) == wxNone {
-				return // no valid adjacent day on one side: the property does not say what to use
+				// no valid adjacent day on one side: the property does not say what to use instead — but
+				// the missing-value code itself must not be consumed as a measurement
+				if got == wxNone {
+					viol(fmt.Sprintf("value:%s-sentinel-consumed:fmt%d", name, L), fmt.Sprintf("%v: %s is missing in the input on this and an adjacent day; the day consumes the missing-value code %v itself", date, name, got))
+				}
+				return
 			}
 			if L == 0 && (pv.Date.Y != date.Y || nx.Date.Y != date.Y) {
 				return // adjacent day is in another file
@@ -585,8 +688,11 @@ func validRunStage(c *vh.Ctx, n int) {
 	var kept []*runCase
 	d := func(y, m, dd int) proj.Date { return proj.Date{Y: y, M: m, D: dd} }
 	focus := [][4]proj.Date{
-		{d(1995, 10, 1), d(1997, 3, 1), d(1995, 1, 1), d(1997, 12, 31)},  // across the leap year 1996, both year ends
-		{d(1999, 12, 31), d(2001, 1, 1), d(1998, 1, 1), d(2001, 12, 31)}, // 1999/2000/2001, file starts before the start year
+		{d(1995, 10, 1), d(1997, 3, 1), d(1995, 1, 1), d(1997, 12, 31)},    // across the leap year 1996, both year ends
+		{d(1999, 12, 31), d(2001, 1, 1), d(1998, 1, 1), d(2001, 12, 31)},   // 1999/2000/2001, file starts before the start year
+		{d(1981, 1, 1), d(1982, 3, 1), d(1981, 1, 1), d(1982, 12, 31)},     // first simulated day 1 January
+		{d(1996, 2, 29), d(1997, 3, 5), d(1996, 1, 1), d(1997, 12, 31)},    // first simulated day 29 February
+		{d(2003, 12, 31), d(2004, 12, 31), d(2003, 1, 1), d(2004, 12, 31)}, // first day 31 December before a leap year, last day 31 December
 	}
 	for k := 0; k < n+3*len(focus); k++ {
 		layout := k % 3
@@ -633,6 +739,92 @@ func validRunStage(c *vh.Ctx, n int) {
 	c.Correspond("dayloop(valid runs)", cases, impl, 0, 0, func(i int) interface{} { return kept[i].replay(nil) })
 }
 
+// StartYear ≠ year of the first simulated day. The arrays loaded before the loop are those of
+// StartYear; the run must either end with an error (the unchanged code: "start year … does not match
+// beginn year") or be driven, every day, by the record of that day's date — never run on the
+// records of another year. Weather covers StartYear and the whole window in every case.
+func startYearCases(r *vh.Rng, extra int) []*runCase {
+	var out []*runCase
+	d := func(y, m, dd int) proj.Date { return proj.Date{Y: y, M: m, D: dd} }
+	type sy struct {
+		first proj.Date // first simulated day
+		start int       // StartYear
+	}
+	base := []sy{
+		{d(1997, 9, 12), 1996}, // StartYear a leap year, first simulated year not
+		{d(1996, 10, 3), 1995}, // the reverse
+		{d(1999, 3, 1), 1997},  // two years before
+		{d(2003, 7, 20), 2000}, // three years before
+		{d(1987, 8, 15), 1988}, // one year after the first simulated day (a leap year)
+		{d(1990, 1, 1), 1989},  // first simulated day 1 January, StartYear the year before
+		{d(1991, 12, 31), 1990},
+		{d(2000, 2, 29), 1999},
+	}
+	for k := 0; k < extra; k++ {
+		y := r.Range(1955, 2085)
+		off := []int{-1, -2, -3, 1}[r.Intn(4)]
+		base = append(base, sy{d(y, r.Range(1, 12), r.Range(1, 28)), y + off})
+	}
+	for i, b := range base {
+		for layout := 0; layout < 3; layout++ {
+			end := b.first.AddDays(r.Range(380, 800))
+			lo := b.start
+			if b.first.Y < lo {
+				lo = b.first.Y
+			}
+			w := [4]proj.Date{b.first, end, d(lo, 1, 1), d(end.Y, 12, 31)}
+			kind := "start-year-before"
+			if b.start > b.first.Y {
+				kind = "start-year-after"
+			}
+			rc := genRunCase(r, fmt.Sprintf("s%d_%d", i, layout), kind, layout, &w)
+			rc.setStartYear(b.start)
+			out = append(out, rc)
+		}
+	}
+	return out
+}
+
+func startYearStage(c *vh.Ctx, extra int) {
+	root := filepath.Join(c.Scratch, "syruns")
+	var cases, impl []string
+	var kept []*runCase
+	for _, rc := range startYearCases(c.Rng, extra) {
+		o, err := rc.run(root, c.Repo)
+		if err != nil {
+			panic(err)
+		}
+		kind, L := rc.Spec.Kind, rc.Spec.Layout
+		c.Eval()
+		c.Nontrivial("sy-" + rc.P.Name)
+		cases = append(cases, rc.modelLine())
+		impl = append(impl, o.implLine())
+		kept = append(kept, rc)
+		if o.Err != "" || o.Panic != "" {
+			c.Count(fmt.Sprintf("start-year:%s:fmt%d:ended-with-error", kind, L))
+			continue
+		}
+		bad, first := 0, ""
+		rc.checkDays(o, func(sig, what string) {
+			bad++
+			if first == "" {
+				first = sig + ": " + what
+			}
+		})
+		c.Res.Evaluations += len(o.Obs)
+		if bad == 0 {
+			c.Count(fmt.Sprintf("start-year:%s:fmt%d:ran-on-the-right-records", kind, L))
+			continue
+		}
+		c.Count(fmt.Sprintf("start-year:%s:fmt%d:SILENT", kind, L))
+		violate04(c, "search", fmt.Sprintf("start-year-mismatch:%s:fmt%d", strings.TrimPrefix(kind, "start-year-"), L),
+			fmt.Sprintf("StartYear %d, first simulated day %s (layout %d, weather %s … %s): the run ended WITHOUT an error and %d day statements are wrong, first: %s",
+				rc.StartYear, rc.Spec.Start, L, rc.Spec.FileStart, rc.Spec.FileEnd, bad, first),
+			rc.replay(map[string]interface{}{"wrong_day_statements": bad, "first": first}))
+	}
+	c.Correspond("dayloop(start year)", cases, impl, 0, 0, func(i int) interface{} { return kept[i].replay(nil) })
+}
+
 // the fixed witnesses of HermesProps/C04.lean, replayed on the real code: the `…_fails_at` witness
 // that is still violated (series starts after the first simulated day, inside the start year) and
 // the former witnesses of the repaired defects (they must end with an error now)
@@ -665,7 +857,7 @@ func errorStreamStage(c *vh.Ctx, n int) {
 	k := 0
 	for _, kind := range errorKinds { // every defect kind in every layout it applies to
 		for layout := 0; layout < 3; layout++ {
-			if layout != 0 && (kind == "missing-year-file" || kind == "empty-year-file") {
+			if !kindApplies(kind, layout) {
 				continue
 			}
 			all = append(all, genRunCase(r, fmt.Sprintf("e%d", k), kind, layout, nil))
@@ -675,7 +867,7 @@ func errorStreamStage(c *vh.Ctx, n int) {
 	for ; k < n; k++ {
 		layout := k % 3
 		kind := errorKinds[r.Intn(len(errorKinds))]
-		for layout != 0 && (kind == "missing-year-file" || kind == "empty-year-file") {
+		for !kindApplies(kind, layout) {
 			kind = errorKinds[r.Intn(len(errorKinds))]
 		}
 		all = append(all, genRunCase(r, fmt.Sprintf("e%d", k), kind, layout, nil))
@@ -809,5 +1001,6 @@ func checkC04(c *vh.Ctx) {
 	loadYearKernelStage(c, c.N(500, 8000))
 	numericKernelStage(c, c.N(250, 3000))
 	validRunStage(c, c.N(72, 600))
+	startYearStage(c, c.N(4, 60))
 	errorStreamViaChild(c)
 }
